@@ -15,6 +15,12 @@ structure RouteInv (s : St) : Prop where
       ∃ o : Op, s.ops[ch.opIdx]? = some o ∧ (itemFrame it).id = (o.id : Int)
   chanOf : ∀ (i : Nat) (o : Op) (c : Nat), s.ops[i]? = some o → o.chan = some c →
       ∃ ch : Chan, s.chans[c]? = some ch ∧ ch.opIdx = i
+  /-- the driver has consumed a prefix of what the server sent -/
+  posLe : s.pos ≤ s.srvLog.length
+  /-- provenance: a routed response is one of the frames the server sent and the driver consumed -/
+  mailLog : ∀ (i : Nat) (o : Op) (f : Frame), s.ops[i]? = some o → o.mail = Mail.frame f → f ∈ s.srvLog.take s.pos
+  /-- order: the items of a channel appear in the order in which the server sent them -/
+  itemsLog : ∀ (c : Nat) (ch : Chan), s.chans[c]? = some ch → (ch.items.map itemFrame).Sublist (s.srvLog.take s.pos)
 
 /-- existing operations keep their identity; the list does not shrink -/
 def SameSig (ops ops' : List Op) : Prop :=
@@ -40,21 +46,24 @@ theorem RouteInv.transfer {s s' : St} (h : RouteInv s)
       (∃ o : Op, s.ops[j]? = some o ∧ o'.sig = o.sig) ∨
       (s.ops[j]? = none ∧ (∀ f, o'.mail ≠ Mail.frame f) ∧ ∀ c, o'.chan = some c → ∃ ch : Chan, s'.chans[c]? = some ch ∧ ch.opIdx = j))
     (hmail : ∀ (j : Nat) (o' : Op) (f : Frame), s'.ops[j]? = some o' → o'.mail = Mail.frame f →
-      (∃ o : Op, s.ops[j]? = some o ∧ o.mail = Mail.frame f) ∨ f.id = (o'.id : Int))
+      (∃ o : Op, s.ops[j]? = some o ∧ o.mail = Mail.frame f) ∨ (f.id = (o'.id : Int) ∧ f ∈ s'.srvLog.take s'.pos))
     (hch : ∀ (c : Nat) (ch : Chan), s.chans[c]? = some ch → ∃ ch' : Chan, s'.chans[c]? = some ch' ∧ ch'.opIdx = ch.opIdx)
     (hchb : ∀ (c : Nat) (ch' : Chan), s'.chans[c]? = some ch' →
       (∃ ch : Chan, s.chans[c]? = some ch ∧ ch'.opIdx = ch.opIdx ∧
-        ∀ it ∈ ch'.items, it ∈ ch.items ∨ ∃ o : Op, s.ops[ch.opIdx]? = some o ∧ (itemFrame it).id = (o.id : Int)) ∨
+        (ch'.items = ch.items ∨ ∃ it : Item, ch'.items = ch.items ++ [it] ∧
+          (∃ o : Op, s.ops[ch.opIdx]? = some o ∧ (itemFrame it).id = (o.id : Int)) ∧
+          s'.srvLog.take s'.pos = s.srvLog.take s.pos ++ [itemFrame it])) ∨
       (s.chans[c]? = none ∧ ch'.items = []))
     (hrm : ∀ p ∈ s'.resultmap, p ∈ s.resultmap ∨ ∃ o : Op, s.ops[p.2]? = some o ∧ o.id = p.1)
     (hsm : ∀ p ∈ s'.searchmap, p ∈ s.searchmap ∨
-      ∃ (ch : Chan) (o : Op), s.chans[p.2]? = some ch ∧ s.ops[ch.opIdx]? = some o ∧ o.id = p.1) :
+      ∃ (ch : Chan) (o : Op), s.chans[p.2]? = some ch ∧ s.ops[ch.opIdx]? = some o ∧ o.id = p.1)
+    (hlog : (s.srvLog.take s.pos) <+: (s'.srvLog.take s'.pos)) (hpos : s'.pos ≤ s'.srvLog.length) :
     RouteInv s' := by
   have fwd : ∀ (j : Nat) (o : Op), s.ops[j]? = some o → ∃ o' : Op, s'.ops[j]? = some o' ∧ o'.id = o.id ∧ o'.chan = o.chan := by
     intro j o ho
     obtain ⟨o', ho', hs⟩ := hops j o ho
     exact ⟨o', ho', (sig_id hs).1, (sig_id hs).2.2⟩
-  refine ⟨?_, ?_, ?_, ?_, ?_⟩
+  refine ⟨?_, ?_, ?_, ?_, ?_, hpos, ?_, ?_⟩
   · intro p hp
     rcases hrm p hp with hin | ⟨o, ho, hid⟩
     · obtain ⟨o, ho, hid⟩ := h.rm p hin
@@ -80,15 +89,22 @@ theorem RouteInv.transfer {s s' : St} (h : RouteInv s)
       rw [ho'] at ho2
       cases ho2
       rw [hid2]; exact this
-    · exact hid
+    · exact hid.1
   · intro c ch' it hc' hit
     rcases hchb c ch' hc' with ⟨ch, hc, hidx, hitems⟩ | ⟨_, hempty⟩
-    · rcases hitems it hit with hold | ⟨o, ho, hid⟩
-      · obtain ⟨o, ho, hid⟩ := h.items c ch it hc hold
+    · have old : ∀ it ∈ ch.items, ∃ o : Op, s'.ops[ch'.opIdx]? = some o ∧ (itemFrame it).id = (o.id : Int) := by
+        intro it hold
+        obtain ⟨o, ho, hid⟩ := h.items c ch it hc hold
         obtain ⟨o', ho', hid', _⟩ := fwd _ o ho
         exact ⟨o', by rw [hidx]; exact ho', by rw [hid']; exact hid⟩
-      · obtain ⟨o', ho', hid', _⟩ := fwd _ o ho
-        exact ⟨o', by rw [hidx]; exact ho', by rw [hid']; exact hid⟩
+      rcases hitems with heq | ⟨nw, heq, ⟨o, ho, hid⟩, _⟩
+      · rw [heq] at hit; exact old it hit
+      · rw [heq] at hit
+        simp only [List.mem_append, List.mem_singleton] at hit
+        rcases hit with hit | rfl
+        · exact old it hit
+        · obtain ⟨o', ho', hid', _⟩ := fwd _ o ho
+          exact ⟨o', by rw [hidx]; exact ho', by rw [hid']; exact hid⟩
     · rw [hempty] at hit; cases hit
   · intro i o' c ho' hcn
     rcases hback i o' ho' with ⟨o, ho, hs⟩ | ⟨_, _, hnew⟩
@@ -97,10 +113,23 @@ theorem RouteInv.transfer {s s' : St} (h : RouteInv s)
       obtain ⟨ch', hc', hidx'⟩ := hch c ch hch1
       exact ⟨ch', hc', hidx'.trans hidx⟩
     · exact hnew c hcn
+  · intro i o' f ho' hm
+    rcases hmail i o' f ho' hm with ⟨o, ho, hmo⟩ | hid
+    · exact hlog.subset (h.mailLog i o f ho hmo)
+    · exact hid.2
+  · intro c ch' hc'
+    rcases hchb c ch' hc' with ⟨ch, hc, _, hitems⟩ | ⟨_, hempty⟩
+    · rcases hitems with heq | ⟨nw, heq, _, hl⟩
+      · rw [heq]; exact (h.itemsLog c ch hc).trans hlog.sublist
+      · rw [heq, hl, List.map_append]
+        exact List.Sublist.append (h.itemsLog c ch hc) (List.Sublist.refl _)
+    · rw [hempty]; simp
 
-/-- a step that changes only mailboxes/results/phases (tamely) and shrinks the maps -/
-theorem RouteInv.of_tame {s s' : St} (h : RouteInv s) (hops : Tame s.ops s'.ops) (hc : s'.chans = s.chans)
-    (hrm : ∀ p ∈ s'.resultmap, p ∈ s.resultmap) (hsm : ∀ p ∈ s'.searchmap, p ∈ s.searchmap) : RouteInv s' := by
+/-- a step that changes only mailboxes/results/phases (tamely), shrinks the maps, and may consume
+more of the server's log -/
+theorem RouteInv.of_tameP {s s' : St} (h : RouteInv s) (hops : Tame s.ops s'.ops) (hc : s'.chans = s.chans)
+    (hrm : ∀ p ∈ s'.resultmap, p ∈ s.resultmap) (hsm : ∀ p ∈ s'.searchmap, p ∈ s.searchmap)
+    (hlog : (s.srvLog.take s.pos) <+: (s'.srvLog.take s'.pos)) (hpos : s'.pos ≤ s'.srvLog.length) : RouteInv s' := by
   apply h.transfer hops.sameSig
   · intro j o' ho'
     obtain ⟨o, ho, hs, _⟩ := hops.2 j o' ho'
@@ -111,11 +140,18 @@ theorem RouteInv.of_tame {s s' : St} (h : RouteInv s) (hops : Tame s.ops s'.ops)
   · intro c ch hch; rw [hc]; exact ⟨ch, hch, rfl⟩
   · intro c ch' hch'
     rw [hc] at hch'
-    exact Or.inl ⟨ch', hch', rfl, fun it hit => Or.inl hit⟩
+    exact Or.inl ⟨ch', hch', rfl, Or.inl rfl⟩
   · intro p hp; exact Or.inl (hrm p hp)
   · intro p hp; exact Or.inl (hsm p hp)
+  · exact hlog
+  · exact hpos
+
+theorem RouteInv.of_tame {s s' : St} (h : RouteInv s) (hops : Tame s.ops s'.ops) (hc : s'.chans = s.chans)
+    (hrm : ∀ p ∈ s'.resultmap, p ∈ s.resultmap) (hsm : ∀ p ∈ s'.searchmap, p ∈ s.searchmap)
+    (hl : s'.srvLog = s.srvLog) (hp : s'.pos = s.pos) : RouteInv s' :=
+  h.of_tameP hops hc hrm hsm (by rw [hl, hp]; exact List.prefix_refl _) (by rw [hl, hp]; exact h.posLe)
 
 theorem RouteInv.init (N : Nat) : RouteInv (Conn.init N) := by
-  refine ⟨?_, ?_, ?_, ?_, ?_⟩ <;> simp [Conn.init]
+  refine ⟨?_, ?_, ?_, ?_, ?_, ?_, ?_, ?_⟩ <;> simp [Conn.init]
 
 end Ldap3V.Conn
